@@ -726,8 +726,12 @@ func (b *BlockCtx) buildV1(t AbsTx) (types.Transaction, error) {
 		if e, ok := b.sfe(id); ok {
 			owner = s.K.NameOf(e.SiafundOutput.Address)
 		}
+		auth := in.Auth
+		if auth == "dev" { // the developer-address override: the new address's conditions and key, whoever owns the parent
+			owner, auth = "N", "ok"
+		}
 		txn.SiafundInputs = append(txn.SiafundInputs, types.SiafundInput{ParentID: id, UnlockConditions: s.K.UC(owner), ClaimAddress: s.K.Addr(in.Claim)})
-		signers = append(signers, signer{types.Hash256(id), owner, in.Auth})
+		signers = append(signers, signer{types.Hash256(id), owner, auth})
 		b.reg[SID{CLAIM, in.ID[1], in.ID[2], in.ID[3], in.ID[4]}] = id.ClaimOutputID()
 	}
 	for _, o := range t.Sfo {
